@@ -77,6 +77,46 @@ def r1(ctx):
               ctx.construct(f, text="spanned.update(span)"),
               "expected one `spanned.update(<span>)` per term, with the span computed before the update (updating with the simplified terms, or not at all, "
               "lets later terms re-span the same space)")
+    # every term of the formula gets a row (possibly with no scoped terms): no iteration ends without a yield
+    def ends_yielding(block) -> bool:
+        if not block:
+            return False
+        last = block[-1]
+        if isinstance(last, ast.Expr) and isinstance(last.value, ast.Yield):
+            return True
+        if isinstance(last, ast.Continue):
+            return len(block) >= 2 and isinstance(block[-2], ast.Expr) and isinstance(block[-2].value, ast.Yield)
+        if isinstance(last, ast.If):
+            return ends_yielding(last.body) and ends_yielding(last.orelse)
+        return False
+    from ..sym import _own_breaks
+    conts = []
+
+    def own_continues(stmts):
+        for s_ in stmts:
+            if isinstance(s_, ast.Continue):
+                conts.append(s_)
+            elif isinstance(s_, (ast.For, ast.While, ast.FunctionDef)):
+                continue
+            else:
+                for f_ in ("body", "orelse", "finalbody"):
+                    own_continues(getattr(s_, f_, []) or [])
+    own_continues(lp.body)
+    silent = []
+    for c_ in conts:
+        blk = None
+        par = P.parent(c_)
+        for f_ in ("body", "orelse", "finalbody"):
+            b_ = getattr(par, f_, None)
+            if isinstance(b_, list) and any(x is c_ for x in b_):
+                blk = b_
+        i_ = [k for k, x in enumerate(blk) if x is c_][0] if blk else 0
+        if not (blk and i_ >= 1 and isinstance(blk[i_ - 1], ast.Expr) and isinstance(blk[i_ - 1].value, ast.Yield)):
+            silent.append(c_)
+    ctx.check(ends_yielding(lp.body) and not silent and not _own_breaks(lp), "C03.R1", "every term of the formula yields a row, also one that adds nothing new", f.module.line(lp),
+              ctx.construct(f, text="every term yields"),
+              f"an iteration can end without yielding (`continue` at line(s) {[x.lineno for x in silent]}): a term that is already spanned by earlier terms then has no "
+              f"entry in the spec's structure — term_indices / get_slice / subset no longer know it")
     # the simplified terms are what is yielded
     ctx.check(by is not None, "C03.R1", "each term yields its own simplified scoped terms", f.module.line(lp), ctx.construct(f, text="yield"),
               "the loop must yield (term, scoped_terms)")
